@@ -43,9 +43,12 @@ FATAL_FAMILIES = {
     "fatal_proto": ["EPROTO", "ENOPROTOOPT", "EOPNOTSUPP", "EMSGSIZE"],
     "fatal_resource": ["ENOBUFS", "ENOMEM", "EIO", "EINVAL", "EFAULT", "EPERM", "EACCES", "EMFILE"],
 }
-FATAL = FATAL_CORE + [n for fam in sorted(FATAL_FAMILIES) for n in FATAL_FAMILIES[fam] if hasattr(errno, n)]
+# errors that carry no errno at all (socket.error("text"), what ssl and socket-like wrappers raise): fatal like any other
+NOERRNO = ["NOERRNO", "NOERRNO_ARGS"]
+FATAL = FATAL_CORE + [n for fam in sorted(FATAL_FAMILIES) for n in FATAL_FAMILIES[fam] if hasattr(errno, n)] + NOERRNO
 FAMILY_OF = {n: fam for fam, names in FATAL_FAMILIES.items() for n in names}
-assert not (RETRY_CODES & {getattr(errno, n) for n in FATAL}), "a fatal errno collides with the retry set"
+FAMILY_OF.update({n: "fatal_noerrno" for n in NOERRNO})
+assert not (RETRY_CODES & {getattr(errno, n) for n in FATAL if n not in NOERRNO}), "a fatal errno collides with the retry set"
 
 HEADER_FORMAT = "!4sHBBHHII16sHH"      # Pyro5 wire header (protocol.py), 40 bytes
 HEADER_SIZE = struct.calcsize(HEADER_FORMAT)
@@ -70,6 +73,10 @@ class _Abort(BaseException):
 
 
 def _make_exc(name):
+    if name == "NOERRNO":
+        return OSError("scripted failure without an errno")
+    if name == "NOERRNO_ARGS":
+        return socket.error("scripted", "failure", "without an errno")     # 3 args: errno stays None too
     return OSError(getattr(errno, name), "scripted " + name)
 
 
@@ -319,6 +326,10 @@ class SockIOWorld(World):
                 r -= w_all
                 if r < w_retry:
                     out.append(["e", rng.choice(retry_set)])
+                    if rng.random() < 0.06:
+                        # a long run of transient errors inside one call (a peer that stays slow for seconds)
+                        for _ in range(rng.choice([11, 12, 13, 14, 20, 33])):
+                            out.append(["e", rng.choice(retry_set)])
                     continue
                 r -= w_retry
                 if r < w_fatal:
